@@ -385,6 +385,12 @@ func (e *csEnv) runBlock(pending []chain.M, dtNext int64, w *chain.TraceWriter) 
 	e.dt = dtNext
 	for i, ev := range pending {
 		r := res.Txs[i]
+		if r.Aborted {
+			// member of a multi-message transaction that failed as a whole (chain.BundlePct):
+			// whatever it did was rolled back; the specification knows no such event and
+			// treats it as a rejection without effect
+			ev["name"] = "TxFailed"
+		}
 		e.fillResp(ev, r)
 		if !r.OK && os.Getenv("COINSWAP_DEBUG") != "" {
 			fmt.Fprintf(os.Stderr, "rejected %v %v: %s\n", ev["name"], ev["who"], r.Log)
